@@ -1,12 +1,22 @@
 #!/bin/bash
-# tools/sweep_all.sh : run every stored seeded change against the check of its (first) property, quick tier, seed 1.
-# Writes /verif/seeded/last_sweep.txt (one line per change). Mutates /repo while running (apply -> check -> revert).
+# tools/sweep_all.sh : run every stored seeded change (not the behaviour-preserving ones) against the check of its
+# property, quick tier, seed 1; where that check is quiet and the property is one of the generated-parser ones, also
+# against C08 and C02 (some changes are reported by a neighbouring property's check, see DESIGN §9).
+# Writes /verif/seeded/last_sweep.txt (one line per change and check). Mutates /repo while running (apply -> check -> revert).
 out=/verif/seeded/last_sweep.txt
 echo "# $(date -u +%FT%TZ) repo HEAD $(git -C /repo rev-parse --short HEAD) verif HEAD $(git -C /verif rev-parse --short HEAD)" > $out
 for d in /verif/seeded/*/; do
   id=$(basename $d)
   [ -f $d/patch.diff ] || continue
-  prop=$(python3 -c "import json,sys; print(json.load(open('$d/meta.json'))['property'].split('/')[0])")
-  /verif/tools/mutrun.sh $id $d/patch.diff $prop 2>&1 | cut -c1-400 >> $out
+  case $id in benign-*|C02-extra-*) continue;; esac
+  prop=$(python3 -c "import json,sys; print(json.load(open('$d/meta.json')).get('property','').split('/')[0])")
+  [ -n "$prop" ] || continue
+  line=$(/verif/tools/mutrun.sh $id $d/patch.diff $prop 2>&1 | cut -c1-400)
+  echo "$line" >> $out
+  case "$line" in *"exit=0"*)
+    case $prop in C01|C03|C16|C02|C08)
+      for q in C08 C02; do [ $q = $prop ] || /verif/tools/mutrun.sh $id $d/patch.diff $q 2>&1 | cut -c1-400 >> $out; done;;
+    esac;;
+  esac
 done
 echo "# done $(date -u +%FT%TZ)" >> $out
